@@ -1,4 +1,5 @@
 import Hgxv.Proofs.C08Bfs
+import Hgxv.Proofs.C08Hist
 /-! # C08 — degrees and connected components equal their combinatorial definitions
 
 Property theorems about the model `Hgxv/Model/C08.lean` (specification vocabulary `Adj`, `Reach`, `WF`, `Disj` in
@@ -368,3 +369,48 @@ example : isConnected exNodes exEdges .none = false ∧ isConnected [0, 1, 2] [[
 example : isolatedNodes exNodes exEdges .none = [5, 6] ∧ isolatedNodes exNodes exEdges (.size 3) = [0, 4, 5, 6]
     ∧ isIsolated? exNodes exEdges (.size 2) 2 = some true ∧ isIsolated? exNodes exEdges .none 2 = some false := by
   decide
+
+/-! ## every object a user can hold
+
+"For every hypergraph" ranges over every `Hypergraph` object reachable through a program of the public operations over
+several objects (`Hgxv/Model/C08Hist.lean`: `add_node`, `add_edge`, `remove_edge`, `remove_node(keep_edges)`, `clear`,
+`copy`, `subhypergraph`; batches and the constructor are sequences of these).  The theorems above take the listing
+`get_nodes()` / `get_edges()` of such an object; the next ones say that every reachable object meets their hypotheses
+and that an operation on one object leaves every other object alone. -/
+
+/-- Every object of every program state satisfies the hypotheses used above: distinct nodes, distinct canonical
+(strictly increasing, hence duplicate-free) hyperedges over nodes of the object.  `hv`: `add_edge` is given
+duplicate-free tuples (the property's hyperedges); rejected operations (`none`: the code raises) end a program. -/
+theorem C08_history_wf (ops : List Hist.Op) (hv : ∀ op ∈ ops, op.Valid) (st : List Hist.Content)
+    (hr : Hist.run [{}] ops = some st) (c : Hist.Content) (hc : c ∈ st) :
+    c.nodes.Nodup ∧ c.es.Nodup ∧ WF c.nodes c.es ∧ (∀ e ∈ c.es, e.Nodup) ∧ (∀ e ∈ c.es, e.Pairwise (· < ·)) := by
+  have h := Hist.inv_run ops [{}] st hv (by intro d hd; simp at hd; subst hd; exact Hist.inv_empty) hr c hc
+  exact ⟨h.nodes_nodup, h.es_nodup, h.wf, fun e he => Hist.nodup_of_sorted e (h.sorted e he), h.sorted⟩
+
+/-- An operation applied to object `i` leaves every other object `j` of the program exactly as it was (`copy` and
+`subhypergraph` change no existing object), and the object `copy` appends has the content of its source.  This is what
+a copy sharing adjacency lists with its original violates. -/
+theorem C08_history_frame (st st' : List Hist.Content) (op : Hist.Op) (hs : Hist.step st op = some st') :
+    (∀ j, j < st.length → op.target ≠ some j → st'[j]? = st[j]?) ∧
+    (∀ i, op = .copy i → st'[st.length]? = st[i]? ∧ st'.length = st.length + 1) :=
+  ⟨fun j hj ht => Hist.frame_step st st' op j hj ht hs, fun i hi => Hist.copy_step st st' i (hi ▸ hs)⟩
+
+/-- Handshake for every reachable object, every filter: no hypothesis on the content is left. -/
+theorem C08_history_handshake (ops : List Hist.Op) (hv : ∀ op ∈ ops, op.Valid) (st : List Hist.Content)
+    (hr : Hist.run [{}] ops = some st) (c : Hist.Content) (hc : c ∈ st) (f : Filt) :
+    (c.nodes.map (fun n => deg c.es n f)).sum
+      = ((c.es.filter (fun e => passes f e.length)).map (fun e => e.length)).sum := by
+  obtain ⟨hn, _, hwf, hnd, _⟩ := C08_history_wf ops hv st hr c hc
+  exact C08_handshake id c.nodes c.es hn (fun e he => ⟨hnd e he, hwf e he⟩) f
+
+/-- non-vacuity: a program with a temporary hyperedge, a copy, and later mutations of both objects -/
+def exProgram : List Hist.Op :=
+  [.addEdge 0 [2, 1], .addEdge 0 [9, 8], .addEdge 0 [4, 2, 3], .removeEdge 0 [8, 9], .copy 0,
+   .removeEdge 1 [1, 2], .addEdge 1 [1, 9], .removeNode 0 2 true, .sub 0 [3, 4, 8]]
+
+example : (∀ op ∈ exProgram, op.Valid) ∧ Hist.run [{}] exProgram = some
+    [⟨[1, 8, 9, 3, 4], [[1], [3, 4]]⟩, ⟨[1, 2, 8, 9, 3, 4], [[2, 3, 4], [1, 9]]⟩, ⟨[3, 4, 8], [[3, 4]]⟩] := by
+  refine ⟨?_, by decide⟩
+  intro op hop
+  simp only [exProgram, List.mem_cons, List.mem_nil_iff, or_false] at hop
+  rcases hop with h | h | h | h | h | h | h | h | h <;> subst h <;> simp [Hist.Op.Valid]
